@@ -188,7 +188,7 @@ fn main() {
                 }
             }
             // oracle 1: rustc accepts every emitted derive / impl (soundness of derives)
-            let uses_blocklist = flags.iter().any(|f| f == "--blocklist-type");
+            let uses_blocklist = flags.iter().any(|f| f == "--blocklist-type" || f == "--no-recursive-allowlist");
             if !uses_blocklist {
                 rustc_runs += 1;
                 let src = format!("#![allow(warnings)]\n{bindings}\n");
